@@ -75,6 +75,9 @@ func (b *boundsCtx) atom(v Val) lin {
 	k := v.Key()
 	if _, ok := b.atoms[k]; !ok {
 		b.atoms[k] = v
+		if q, isQ := v.(*BinV); isQ && q.Op == token.QUO {
+			b.linOf(q.X) // the dividend's atoms take part in the quotient's implicit facts
+		}
 	}
 	return lin{t: map[string]int64{k: 1}}
 }
@@ -285,6 +288,24 @@ func (b *boundsCtx) implicit() []lin {
 				out = append(out, l) // BlockSize() >= 1
 			case strings.HasSuffix(x.Callee, ".NonceSize"), strings.HasSuffix(x.Callee, ".Overhead"), strings.HasSuffix(x.Callee, ".Size"):
 				out = append(out, one)
+			}
+		case *BinV:
+			// q = x / c for a constant c >= 1 and a dividend made of lengths (so x >= 0): 0 <= c*q <= x <= c*q + c - 1
+			if c, isC := constInt(x.Y); x.Op == token.QUO && isC && c >= 1 && isIntType(x.X.Type()) {
+				xl := b.linOf(x.X)
+				nonNeg := xl.k >= 0
+				for a, co := range xl.t {
+					cv, isCall := b.atoms[a].(*CallV)
+					if co < 0 || !isCall || (cv.Callee != "len" && cv.Callee != "cap") {
+						nonNeg = false
+					}
+				}
+				if nonNeg {
+					out = append(out, one)
+					out = append(out, xl.add(one, -c))
+					up := lin{t: map[string]int64{}, k: c - 1}.add(one, c)
+					out = append(out, up.add(xl, -1))
+				}
 			}
 		case *ConvV:
 			if bt, ok := x.X.Type().Underlying().(*types.Basic); ok && bt.Info()&types.IsUnsigned != 0 {
